@@ -1,5 +1,5 @@
 (** C04 — DHCPv4 decoding accepts exactly well-formed packets and reads the RFC values. *)
-From DV Require Import Base.Bytes V4.Model V4.OptProofs V4.Proofs.
+From DV Require Import Base.Bytes V4.Model V4.OptProofs V4.Proofs V4.PadOnly.
 
 (** [layout4 b p] (V4/Proofs.v) is RFC 2131 figure 1 written as a relation:
     b = op htype hlen hops xid(4) secs(2) flags(2) ciaddr yiaddr siaddr giaddr
@@ -37,3 +37,17 @@ Example C04_example_opts :
   exists p, dec4 (zeros 236 ++ cookie ++ [x00; n2b 53; x01; x05; n2b 53; x01; x06; xff; x07]) = Ok p
             /\ p_opts p = [(n2b 53, [x05; x06])].
 Proof. eexists. split; [vm_compute; reflexivity | reflexivity]. Qed.
+
+(** an option area of pad octets only - any length but zero - holds no End option: the packet is
+    rejected (a BOOTP message with the cookie and an all-zero vendor field is not a DHCP message) *)
+Theorem C04_pad_only_area_rejected : forall op hw hl hops xid secs flags ci yi si gi ch sn fl n,
+  length xid = 4 -> length secs = 2 -> length flags = 2 ->
+  length ci = 4 -> length yi = 4 -> length si = 4 -> length gi = 4 ->
+  length ch = 16 -> length sn = 64 -> length fl = 128 -> 0 < n ->
+  dec4 ([op; hw; hl; hops] ++ xid ++ secs ++ flags ++ ci ++ yi ++ si ++ gi ++ ch ++ sn ++ fl ++ cookie ++ zeros n) = Err.
+Proof. exact pad_only_area_rejected. Qed.
+Print Assumptions C04_pad_only_area_rejected.
+
+Example C04_example_pad_only_300 :
+  dec4 (zeros 236 ++ cookie ++ zeros 60) = Err /\ length (zeros 236 ++ cookie ++ zeros 60) = 300.
+Proof. exact pad_only_300. Qed.
